@@ -14,7 +14,7 @@ from ..program import AnalysisError, FunctionInfo, fn_nodes, norm
 from ..cfg import cfg_of
 from ..decide import truth_table
 from ..effects import Effects
-from .common import can_reach_exit, const_value, is_const, succ_by_label
+from .common import resolve_all, can_reach_exit, const_value, is_const, succ_by_label
 
 REG = "rfc7519.registry:JWTClaimsRegistry"
 BASE = "rfc7519.registry:ClaimsRegistry"
@@ -206,24 +206,31 @@ def r10_5(ctx) -> None:
         raise AnalysisError("ClaimsRegistry.check_value vanished")
     vp = fn.pos_params[2]
 
+    OPT = f"{fn.self_name}.options.get({fn.pos_params[1]})"
+    AB, OV, OVS = f"{OPT}.get('allow_blank')", f"{OPT}.get('value')", f"{OPT}.get('values')"
+
+    def R(e: ast.AST) -> str:
+        r = resolve_all(eng, fn, e)
+        return r[0] if len(r) == 1 else norm(e)
+
     def atom(e: ast.AST):
-        t = norm(e)
-        if t == "option":
+        t = R(e)
+        if t == OPT:
             return ("has_option", True)
-        if t == "allow_blank":
+        if t == AB:
             return ("allow_blank", True)
         if isinstance(e, ast.Compare) and len(e.ops) == 1:
-            l, r = norm(e.left), norm(e.comparators[0])
+            l, r = R(e.left), R(e.comparators[0])
             op = e.ops[0]
             if l == vp and r in ("''", '""') and isinstance(op, (ast.Eq, ast.NotEq)):
                 return ("blank", isinstance(op, ast.Eq))
-            if l == "option_value" and is_const(e.comparators[0], None) and isinstance(op, (ast.Is, ast.IsNot)):
+            if l == OV and is_const(e.comparators[0], None) and isinstance(op, (ast.Is, ast.IsNot)):
                 return ("has_value", isinstance(op, ast.IsNot))
-            if l == "option_values" and is_const(e.comparators[0], None) and isinstance(op, (ast.Is, ast.IsNot)):
+            if l == OVS and is_const(e.comparators[0], None) and isinstance(op, (ast.Is, ast.IsNot)):
                 return ("has_values", isinstance(op, ast.IsNot))
-            if l == vp and r == "option_value" and isinstance(op, (ast.Eq, ast.NotEq)):
+            if {l, r} == {vp, OV} and isinstance(op, (ast.Eq, ast.NotEq)):
                 return ("eq_value", isinstance(op, ast.Eq))
-            if l == vp and r == "option_values" and isinstance(op, (ast.In, ast.NotIn)):
+            if l == vp and r == OVS and isinstance(op, (ast.In, ast.NotIn)):
                 return ("in_values", isinstance(op, ast.In))
         return None
     atoms = ["has_option", "allow_blank", "blank", "has_value", "eq_value", "has_values", "in_values"]
@@ -251,11 +258,6 @@ def r10_5(ctx) -> None:
                 good = False
     if good:
         ctx.ok("R10.5", f"{fn.short} :: truth table", f"{n} atom assignments: raise InvalidClaimError iff option and ((not allow_blank and value == '') or value != option.value or value not in option.values)")
-    # the locals are what they are named after
-    srcs = {"option": f"{fn.self_name}.options.get({fn.pos_params[1]})", "allow_blank": "option.get('allow_blank')", "option_value": "option.get('value')", "option_values": "option.get('values')"}
-    for var, want in srcs.items():
-        defs = [d for d in eng.flow._defs(fn).get(var, []) if d[0] == "assign"]
-        ctx.check(len(defs) == 1 and norm(defs[0][1]) == want, "R10.5", fn, fn.node, f"{fn.short} :: {var}", f"`{var}` is not {want}", f"{var} = {want}", construct=f"source of {var}")
 
 
 def r10_6(ctx) -> None:
